@@ -643,3 +643,84 @@ def check_skeleton(ctx, rep):
         else:
             rep.bad("T-SKELETON", "T-SKELETON:parse:rejects-leftovers", pb.where(), "Parser::parse can return Ok while a token is still pending")
     return n
+
+
+def check_display_separators(ctx, rep):
+    """Or / And / Path print one separator between consecutive elements: the separator write inside the per-element closure
+    is guarded by `index < collection.len() - 1` on the collection the closure iterates"""
+    prog = ctx.prog
+    n = 0
+    for short, sep in (("<haystack::filter::nodes::Or as std::fmt::Display>::fmt", " or "), ("<haystack::filter::nodes::And as std::fmt::Display>::fmt", " and "), ("<haystack::filter::path::Path as std::fmt::Display>::fmt", "->")):
+        b = body_of(prog, short)
+        if b is None:
+            rep.gap(short, "-", "not found")
+            continue
+        n += 1
+        key = "display-separator:%s" % short.split("::")[3].split(" ")[0]
+        found = False
+        ok = False
+        why = "separator %r is not written from a per-element closure" % sep
+        for cid in prog.closures_of.get(b.id, []):
+            cb = prog.bodies[cid]
+            for bi, t in cb.calls():
+                nm = strip_generics(mir.callee_name(t) or "")
+                if nm.endswith("Formatter::write_str") and len(t["args"]) > 1:
+                    v = G.describe(cb, t["args"][1])
+                    if v.kind == "conststr" and v.v == sep:
+                        found = True
+                        why = "no `index < len - 1` guard on the separator"
+                        for g in G.guards_at(cb, bi):
+                            if g.op == "Lt" and g.b is not None and g.b.kind == "binop" and g.b.v == "Sub" and len(g.b.args) == 2:
+                                ln, one = g.b.args
+                                if one.kind == "const" and one.v == 1 and ln.kind == "call" and ln.v.endswith("::len") and re.search(r"^_2\.0", repr(g.a)):
+                                    # the closure must be driven by enumerate() over the same field
+                                    fld = re.search(r"\.([a-z_]+)\)?$", repr(ln.args[0]))
+                                    drv = [tt for _, tt in b.calls() if strip_generics(mir.callee_name(tt) or "").endswith("try_for_each")]
+                                    if fld and drv and ("enumerate" in repr(G.describe(b, drv[0]["args"][0]))) and ("." + fld.group(1)) in repr(G.describe(b, drv[0]["args"][0])):
+                                        ok = True
+                                    else:
+                                        why = "the guard's length is not of the collection the closure enumerates"
+        if ok:
+            rep.ok("T-SEP", key, b.where(), "%r written exactly between consecutive elements (index < len - 1 of the enumerated collection)" % sep)
+        else:
+            rep.bad("T-SEP", "T-SEP:" + key, b.where(), "%s: %s; some trees print without a separator (or with an extra one) and re-parse differently" % (short.split("::")[3].split(" ")[0], why))
+    return n
+
+
+def check_whitespace_siblings(ctx, rep):
+    """the filter lexer treats space, tab, CR and LF alike as white space between tokens (its first-byte arm); every other
+    place in the filter lexer that skips blanks must skip the same class"""
+    prog = ctx.prog
+    from rules import scanai
+
+    ai = scanai.AI(prog)
+    arms, lb = lexer_first_bytes(prog)
+    if not arms:
+        rep.gap("filter lexer", "-", "dispatch not found")
+        return 0
+    ws_arm = {v for v, eff in arms.items() if eff["calls"][:1] and eff["calls"][0].startswith("consume_") and not eff["tokens"]}
+    want = 0
+    for v in ws_arm:
+        want |= 1 << v
+    classes = {}
+    for nm, pred in (("consume_spaces", "is_space"), ("consume_white_spaces", "is_white_space")):
+        pb = prog.get("haystack::encoding::zinc::decode::scanner::Scanner::" + pred)
+        if pb:
+            classes[nm] = scanai.byte_class(ai, pb.id)[0]
+    n = 0
+    for b in prog.bodies.values():
+        if not b.file.endswith("filter/lexer.rs"):
+            continue
+        k = 0
+        for bi, t in b.calls():
+            nm = strip_generics(mir.callee_name(t) or "").split("::")[-1]
+            if nm not in classes:
+                continue
+            n += 1
+            key = "whitespace:%s:%s#%d" % (b.short.split("::")[-1], nm, k)
+            k += 1
+            if classes[nm] == want:
+                rep.ok("T-SPELL", key, b.where(bi), "skips %s, the lexer's white-space class" % scanai.mask_str(want))
+            else:
+                rep.bad("T-SPELL", "T-SPELL:whitespace:%s:%s" % (b.short.split("::")[-1], nm), b.where(bi), "%s skips %s but the filter lexer's white-space class is %s: a line break in that position is not accepted although it is elsewhere" % (nm, scanai.mask_str(classes[nm]), scanai.mask_str(want)))
+    return n
